@@ -89,6 +89,7 @@ def make_conn(nmax=12):
 
 
 _AST = {}
+_FAIL_AST = {}
 BIG = 300      # rows of the table used by the occasional large histories
 
 
@@ -223,8 +224,16 @@ def run_history(ctx, history, label, lite=None, nmax=12):
                 text = {'execreject': ['SELECT nosuch FROM #t', 'SELECT k FROM #nosuch', 'SELECT k, FROM #t', 'SELECT sum(k), s FROM #t GROUP BY 3'],
                         'execfail': ['SELECT k, date_add(2020-01-01, 10000000 * k) AS d FROM #t', 'SELECT k FROM #t WHERE str(k) ~ "("',
                                      'SELECT s, splitcomp(s, "s", k) AS x FROM #t']}[kind][op[2]]
+                stmt = _FAIL_AST.get(text)
+                if stmt is None:
+                    from beanquery import parser as _parser
+                    try:
+                        stmt = _parser.parse(text)      # parsed once: parsing costs as much as a whole history
+                    except Exception:  # noqa: BLE001
+                        stmt = text
+                    _FAIL_AST[text] = stmt
                 try:
-                    cur.execute(text)
+                    cur.execute(stmt)
                     problems.append(f'{where}: {text!r} was expected to fail and did not (harness)')
                 except Exception:  # noqa: BLE001
                     pass
@@ -374,7 +383,7 @@ def run(ctx):
                     hist.append(('cexec', cid, rng.choice(sizes)))
             elif r < 0.22:
                 hist.append(('exec', cid, rng.choice(sizes)))
-            elif r < 0.24:
+            elif r < 0.23:
                 hist.append(('execmany', cid, [rng.choice(sizes) for _ in range(rng.choice([1, 2, 3]))]))
             elif r < 0.27:
                 hist.append(rng.choice([('execfail', cid, rng.randrange(3)), ('execreject', cid, rng.randrange(4))]))
